@@ -96,7 +96,8 @@ theorem replay_in_run_original {r t} (h : Replaying r t) (cfg : InCfg) (args bod
       (by intro u e ⟨ext, hu⟩; exact ⟨ext ++ [e], by simp [hu]⟩)
       (by intro u b hu; simpa using hu) (by intro u hu; simpa using hu) (by intro u hu; simpa using hu)
       (by intro u key v hu; simpa using hu) (by intro u cfg n a hu _; simpa using hu)
-      (by intro cfg a k0 u o hu; simpa using hu) (by intro al n u o hu; simpa using hu) p s ⟨[], by simp⟩
+      (by intro cfg a k0 u o hu; simpa using hu) (by intro al n u o hu; simpa using hu)
+      (by intro u b hu; simpa using hu) p s ⟨[], by simp⟩
     exact this
   obtain ⟨e1, h1⟩ := hmono body (addJournal t (cfg.name, args))
   generalize exec (addJournal t (cfg.name, args)) body = rb at h1
@@ -158,6 +159,12 @@ theorem replay_no_bodies (r : Recording) : ∀ (p : Prog),
   | discard k ih => intro hq t h; rw [exec, doDiscard_inactive h.active]; exact ih hq t h
   | force k ih => intro hq t h; rw [exec, doForce_inactive h.active]; exact ih hq t h
   | recordData key v k ih => intro hq t h; rw [exec, doRecordData_inactive _ _ h.active]; exact ih hq t h
+  | setEnabled b k ih =>
+    intro hq t h
+    rw [exec]
+    have h' : Replaying r (doSetEnabled t b) :=
+      ⟨by simpa using h.playback, by simpa using h.inInt, doSetEnabled_active_none b h.active⟩
+    simpa using ih hq _ h'
   | playData key k ih => intro hq t h; rw [exec]; exact ih _ (hq _) t h
   | callIn cfg args body k _ ihk =>
     intro hq t h
